@@ -512,3 +512,61 @@ def judge(ck, outs, tag="hl2npu"):
     return {"hl2npu_operations": len(lines), "hl2npu_model_disagreements": len(model_bad), "hl2npu_spec_rejections": len(spec_bad),
             "hl2npu_judged_roles": judged["roles"], "hl2npu_judged_weights": judged["weights"], "hl2npu_judged_dma": judged["dma"],
             "hl2npu_judged_clamp": judged["clamp"], "hl2npu_judged_footprints": judged["fm"], "hl2npu_skipped": n_skip}
+
+
+# ------------------------------------------------------------------------------------------------
+# the exact float operations of the Lean side (Spec/FloatExact.lean) against NumPy, on the expressions of the file
+
+
+def _obj(kind, v):
+    return np.float32(v) if kind == 1 else np.float64(v) if kind == 2 else float(v)
+
+
+def _bits(x):
+    return struct.unpack("<Q", struct.pack("<d", float(x)))[0]
+
+
+def float_stage(ck, n):
+    """`quantise_float32`, `scale * int`, `scale / scale` evaluated by NumPy and by the Lean handler on the same inputs"""
+    from ethosu.vela.numeric_util import quantise_float32
+
+    rng = ck.rng
+    reqs, want, what = [], [], []
+    ints = {0: int, 1: np.int16, 2: np.int64}
+    for _ in range(n):
+        kind = rng.choice([0, 1, 1, 1, 2])
+        sc = _obj(kind, np.float32(2.0 ** rng.uniform(-16, 2)) if rng.random() < 0.7 else 2.0 ** rng.uniform(-16, 2))
+        which = rng.choice(["qdiv", "qdiv", "mul", "div"])
+        if which == "qdiv":
+            f = rng.choice([0.0, 6.0, 1.0, -1.0, rng.uniform(-300, 300), float(np.float32(rng.uniform(-8, 8))), rng.uniform(-1, 1) * float(sc) * 4000])
+            r = int(quantise_float32(f, sc, 0))
+            reqs.append(f"hl2npu_f qdiv {_bits(f)} {_bits(sc)}")
+            want.append(str(r))
+        elif which == "mul":
+            ik = rng.choice([0, 1, 2])
+            q = rng.randint(-30000, 30000) if ik != 1 else rng.randint(-30000, 30000)
+            with np.errstate(all="ignore"):
+                p = sc * ints[ik](q)
+            k = 1 if isinstance(p, np.float32) else 2 if isinstance(p, np.floating) else 0
+            reqs.append(f"hl2npu_f mul {_bits(sc)} {kind} {ik} {q}")
+            want.append(f"{_bits(p)}:{k}")
+        else:
+            kb = rng.choice([0, 1, 1, 2])
+            b = _obj(kb, np.float32(2.0 ** rng.uniform(-16, 2)) if rng.random() < 0.7 else 2.0 ** rng.uniform(-16, 2))
+            p = sc / b
+            k = 1 if isinstance(p, np.float32) else 2 if isinstance(p, np.floating) else 0
+            reqs.append(f"hl2npu_f div {_bits(sc)} {kind} {_bits(b)} {kb}")
+            want.append(f"{_bits(p)}:{k}")
+        what.append(which)
+    reqs.append("hl2npu_f inv3000")
+    want.append(str(_bits(1 / 0x3000)))
+    what.append("inv3000")
+    got = ck.model(reqs)
+    bad = [(r, w, g) for r, w, g in zip(reqs, want, got) if w != g]
+    for w in what:
+        ck.count("hl2npu_float_" + w)
+    if bad:
+        r, w, g = bad[0]
+        ck.violation(f"Spec/FloatExact.lean and NumPy disagree on {len(bad)} of {len(reqs)} float operations: `{r}` NumPy {w} Lean {g}",
+                     {"correspondence": "hl2npu float operations", "request": r, "numpy": w, "lean": g}, found_input=False)
+    return {"hl2npu_float_ops": len(reqs), "hl2npu_float_disagreements": len(bad)}
